@@ -319,7 +319,7 @@ func c17(r *Report, s *Sem) {
 	var shared []string
 	for _, fn := range p.LimeFuncs() {
 		k := s.recvKind(fn)
-		perSession := k == "channel" || k == "server" || k == "client" || topLevel(fn) == a.listenFn || topLevel(fn) == a.receiver
+		perSession := k == "channel" || k == "server" || k == "client" || enclosedBy(fn, a.listenFn) || enclosedBy(fn, a.receiver)
 		if t := topLevel(fn); typeIs(recvType(t), p.Type("EnvelopeMux")) && strings.HasPrefix(t.Name(), "handle") {
 			perSession = true
 		}
